@@ -173,7 +173,7 @@ PROPS: dict[str, dict[str, Any]] = {
                         "pytest's runtest protocol is a stub that records (item, nextitem)"],
     },
     "C07": {
-        "components": [worker(), sched(["worksteal"], crash=0.03), system(["plain", "crash"], 240, 5000, modes=["worksteal"])],
+        "components": [worker(), sched(["worksteal"], crash=0.03), system(["plain", "crash", "stealshut", "crash", "stealshut"], 300, 6000, modes=["worksteal"])],
         "assumptions": ["queue duplicate-freeness is an invariant of reachable system states (controller never has an index outstanding twice, C16)"],
     },
     "C16": {
